@@ -262,6 +262,17 @@ Check linspace_monotone : forall (a b : R) n, (a < b)%R -> 2 <= n ->
 Print Assumptions linspace_monotone.
 Print Assumptions audit_separator.
 
+(* power spacing over R (libm's pow as the real power function rpow): starts at a, ends at b, strictly monotone *)
+Theorem powspace_spec : forall (a b p : R) n, 2 <= n -> (0 < p)%R ->
+  exists l, powspace (F := SAR) rpow a b n p = Ok l /\ length l = n /\ hd 0%R l = a /\ last l 0%R = b /\
+            ((a < b)%R -> forall i j, i < j < n -> (nth i l 0 < nth j l 0)%R).
+Proof. intros a b p n Hn Hp. exact (powspace_spec_lemma a b p n Hn Hp). Qed.
+Check powspace_spec : forall (a b p : R) n, 2 <= n -> (0 < p)%R ->
+  exists l, powspace (F := SAR) rpow a b n p = Ok l /\ length l = n /\ hd 0%R l = a /\ last l 0%R = b /\
+            ((a < b)%R -> forall i j, i < j < n -> (nth i l 0 < nth j l 0)%R).
+Print Assumptions powspace_spec.
+Print Assumptions audit_separator.
+
 (* non-vacuity: the hypotheses hold at R (FieldLaws, OfNatLaws) and for concrete end points *)
 Example linspace_nonvacuous :
   inhabited (FieldLaws SAR) /\ OfNatLaws SAR /\ (1 < 3)%R /\ 2 <= 5.
